@@ -587,6 +587,19 @@ pub fn search_c08(rng: &mut Rng, thorough: bool) -> SearchResult {
         if out2 != out {
             r.viol("compact-order", format!("compact depends on order/multiplicity: {:x?} -> {:x?} vs {:x?}", &input[..input.len().min(40)], &out[..out.len().min(40)], &out2[..out2.len().min(40)]));
         }
+        // particular orders: numerically ascending (with and without duplicates) and descending
+        let mut asc = input.clone();
+        asc.sort_unstable();
+        let mut asc_u = asc.clone();
+        asc_u.dedup();
+        let mut desc = asc_u.clone();
+        desc.reverse();
+        for (name, variant) in [("ascending", &asc), ("ascending without duplicates", &asc_u), ("descending", &desc)] {
+            let o = a5::compact(variant).unwrap_or_default();
+            if o != out {
+                r.viol("compact-order", format!("compact depends on order/multiplicity: the {} arrangement {:x?} -> {:x?}, another arrangement -> {:x?}", name, &variant[..variant.len().min(40)], &o[..o.len().min(40)], &out[..out.len().min(40)]));
+            }
+        }
         let uniq: HashSet<u64> = input.iter().copied().collect();
         if out.len() < uniq.len() || uniq.len() < input.len() {
             r.nontrivial += 1;
@@ -622,7 +635,15 @@ pub fn search_c10(rng: &mut Rng, thorough: bool) -> SearchResult {
         if a.is_empty() {
             continue;
         }
-        rng.shuffle(&mut a);
+        // arrangement of the input: random, numerically ascending or descending
+        match rng.below(4) {
+            0 => a.sort_unstable(),
+            1 => {
+                a.sort_unstable();
+                a.reverse();
+            }
+            _ => rng.shuffle(&mut a),
+        }
         r.evaluations += 1;
         let out = match a5::compact(&a) {
             Ok(v) => v,
@@ -634,6 +655,17 @@ pub fn search_c10(rng: &mut Rng, thorough: bool) -> SearchResult {
         let set: HashSet<u64> = out.iter().copied().collect();
         if let Some(p) = has_sibling_group(&set) {
             r.viol("compact-maximal", format!("compact({:x?}) = {:x?} still contains all children of {:x}", &a[..a.len().min(60)], &out[..out.len().min(60)], p));
+        }
+        // the numerically ascending arrangement of the same input must compact to the same (maximal) set
+        {
+            let mut asc = a.clone();
+            asc.sort_unstable();
+            let out_asc: HashSet<u64> = a5::compact(&asc).unwrap_or_default().into_iter().collect();
+            if let Some(p) = has_sibling_group(&out_asc) {
+                r.viol("compact-maximal", format!("compact of the ascending input {:x?} still contains all children of {:x}", &asc[..asc.len().min(60)], p));
+            } else if out_asc != set {
+                r.viol("compact-canonical", format!("the ascending arrangement of {:x?} compacts to a different set", &a[..a.len().min(60)]));
+            }
         }
         let again = a5::compact(&out).unwrap_or_default();
         let set2: HashSet<u64> = again.iter().copied().collect();
@@ -651,7 +683,11 @@ pub fn search_c10(rng: &mut Rng, thorough: bool) -> SearchResult {
             }
         }
         if b.len() <= 6000 {
-            rng.shuffle(&mut b);
+            if rng.chance(1, 3) {
+                b.sort_unstable();
+            } else {
+                rng.shuffle(&mut b);
+            }
             let outb: HashSet<u64> = a5::compact(&b).unwrap_or_default().into_iter().collect();
             if outb != set {
                 r.viol("compact-canonical", format!("two inputs covering the same region compact differently: {:x?} vs split version -> {:x?} vs {:x?}", &a[..a.len().min(30)], &out[..out.len().min(30)], outb.iter().take(30).collect::<Vec<_>>()));
